@@ -26,6 +26,8 @@ Lemma bind_ok {X Y} (a : res X) (f : X -> res Y) r :
 Proof. destruct a as [x|e]; cbn; intros H; [exists x; auto | discriminate]. Qed.
 
 Ltac fa := repeat (first [apply Forall_nil | apply Forall2_nil | apply Forall_cons | apply Forall2_cons]).
+Tactic Notation "inv_bindn" hyp(H) "as" ident(x) ident(Hx) :=
+  apply bind_ok in H; destruct H as [x [Hx H]].
 Ltac inv_bind H :=
   let x := fresh "x" in let Hx := fresh "Hx" in
   apply bind_ok in H; destruct H as [x [Hx H]].
@@ -104,8 +106,61 @@ Proof.
   - destruct (IH vs i) as [v [H1 H2]]; [lia | exact Hn |]. exists v. auto.
 Qed.
 
+Lemma mlookup_in m t op sw ar : mlookup m t = Some (op, sw, ar) -> In (m, op, sw, ar) t.
+Proof.
+  induction t as [|[[[n op0] sw0] ar0] t IH]; cbn; [discriminate|].
+  destruct (mlookup m t) as [x|] eqn:E.
+  - intros H. inversion H; subst. right. apply IH. reflexivity.
+  - destruct (String.eqb_spec n m) as [En|En]; [|discriminate]. intros H. inversion H; subst. left. reflexivity.
+Qed.
+
 Local Arguments mlookup : simpl never.
 Local Arguments String.eqb : simpl never.
+
+(* ================= 0b. the generated method tables (Gen/Dunder.v) ================= *)
+(* Everything below is computed from the tables translated from multivector.py / taperecorder.py: when
+   the source changes a binding, these lemmas (and with them the theorems) stop compiling. *)
+
+
+(* a member that exists on both surfaces calls the same algebra operator with the same arity *)
+Definition tables_agree_b : bool :=
+  forallb (fun e => let '(n, op', _, ar') := e in
+                    match mlookup n mv_methods with
+                    | Some (op, _, ar) => String.eqb op op' && Nat.eqb ar ar'
+                    | None => true
+                    end) tape_methods.
+Lemma tables_agree m op sw ar op' sw' ar' :
+  mlookup m mv_methods = Some (op, sw, ar) -> mlookup m tape_methods = Some (op', sw', ar') -> op = op' /\ ar = ar'.
+Proof.
+  intros H1 H2. apply mlookup_in in H2.
+  assert (Hb : tables_agree_b = true) by (vm_compute; reflexivity).
+  unfold tables_agree_b in Hb. rewrite forallb_forall in Hb. specialize (Hb _ H2). cbn beta iota in Hb.
+  rewrite H1 in Hb. apply andb_true_iff in Hb. destruct Hb as [Ha Hb].
+  apply String.eqb_eq in Ha. apply Nat.eqb_eq in Hb. auto.
+Qed.
+
+Definition opname (o : infix) : string :=
+  match o with
+  | IAdd => "add" | ISub => "sub" | IMul => "gp" | IDiv => "div" | IXor => "op" | IOr => "ip" | IAnd => "rp"
+  | IRshift => "sw" | IMatmul => "proj"
+  end.
+Lemma lk_mv_dunder o : mlookup (dunder o) mv_methods = Some (opname o, false, 2%nat).
+Proof. destruct o; vm_compute; reflexivity. Qed.
+Lemma lk_mv_rdunder o : mlookup (rdunder o) mv_methods
+  = Some (opname o, match o with IAdd => false | _ => true end, 2%nat).
+Proof. destruct o; vm_compute; reflexivity. Qed.
+Lemma lk_tp_dunder o : mlookup (dunder o) tape_methods = Some (opname o, false, 2%nat).
+Proof. destruct o; vm_compute; reflexivity. Qed.
+Lemma lk_tp_rdunder o : mlookup (rdunder o) tape_methods
+  = match o with IAdd | IMul | IXor => Some (opname o, false, 2%nat) | _ => None end.
+Proof. destruct o; vm_compute; reflexivity. Qed.
+Lemma lk_mv_un : forall m op, In (m, op) [("__neg__", "neg"); ("__invert__", "reverse"); ("inv", "inv"); ("normsq", "normsq");
+    ("sqrt", "sqrt"); ("polarity", "polarity"); ("unpolarity", "unpolarity"); ("hodge", "hodge"); ("unhodge", "unhodge")] ->
+  mlookup m mv_methods = Some (op, false, 1%nat) /\ mlookup m tape_methods = Some (op, false, 1%nat).
+Proof. intros m op H. cbn in H. repeat (destruct H as [H|H]; [inversion H; subst; vm_compute; split; reflexivity|]). contradiction. Qed.
+Lemma lk_gp : mlookup "gp" mv_methods = Some ("gp", false, 2%nat) /\ mlookup "gp" tape_methods = Some ("gp", false, 2%nat).
+Proof. vm_compute. split; reflexivity. Qed.
+
 
 (* ================= 1. abstract part: any well-behaved table of generated functions ================= *)
 
@@ -466,17 +521,21 @@ Section Abstract.
     destruct (P k); cbn; rewrite IH; reflexivity.
   Qed.
   Lemma enum_filter_vals (P : Z -> bool) ks : forall vs pre, length vs = length ks ->
-    mapM (fun j => of_opt EIndex (nth_error (pre ++ vs) j))
+    mapM (fun j => of_opt EIndex (nth_error (pre ++ vs)%list j))
          (map fst (filter (fun p : nat * Z => P (snd p)) (enum_from (length pre) ks))) = Ok (selv P ks vs).
   Proof.
     induction ks as [|k ks IH]; intros [|v vs] pre Hl; cbn in Hl; try discriminate; [reflexivity|].
-    assert (E : pre ++ v :: vs = (pre ++ [v]) ++ vs) by (rewrite <- app_assoc; reflexivity).
-    assert (El : S (length pre) = length (pre ++ [v])) by (rewrite app_length; cbn; lia).
+    assert (E : (pre ++ v :: vs = (pre ++ [v]) ++ vs)%list) by (rewrite <- app_assoc; reflexivity).
+    assert (El : S (length pre) = length (pre ++ [v])%list) by (rewrite app_length; cbn; lia).
     unfold selv. cbn [enum_from filter combine fst snd]. destruct (P k); cbn [map mapM fst snd].
     - rewrite nth_error_app2 by lia. rewrite Nat.sub_diag. cbn [nth_error of_opt bind].
-      rewrite E, El. rewrite (IH vs (pre ++ [v])) by lia. reflexivity.
+      rewrite E, El. rewrite (IH vs (pre ++ [v])%list) by lia. reflexivity.
     - rewrite E, El. apply IH. lia.
   Qed.
+  Lemma enum_filter_vals0 (P : Z -> bool) ks vs : length vs = length ks ->
+    mapM (fun j => of_opt EIndex (nth_error vs j))
+         (map fst (filter (fun p : nat * Z => P (snd p)) (enum_from 0 ks))) = Ok (selv P ks vs).
+  Proof. intros Hl. exact (enum_filter_vals P ks vs [] Hl). Qed.
   Lemma selv_combine (P : Z -> bool) ks vs : length vs = length ks ->
     combine (filter P ks) (selv P ks vs) = filter (fun kv => P (fst kv)) (combine ks vs)
     /\ length (selv P ks vs) = length (filter P ks).
@@ -499,15 +558,15 @@ Section Abstract.
   Proof.
     intros r r' q Hr H. destruct r as [c|ks t], r' as [c'|ks' t']; cbn in Hr; try contradiction; cbn [rec_grade] in H; try discriminate.
     destruct Hr as [Hk Hp]. cbn [rec_grade]. inv_bind H. rewrite Hx. cbn [bind]. inversion H; subst q. clear H.
-    eexists. split; [reflexivity|]. rewrite !enum_filter_keys.
+    eexists. split; [reflexivity|]. rewrite !(enum_filter_keys (fun k => zin k x)).
     split; [split; [apply wfk_filter; exact Hk | apply Permutation_filter'; exact Hp]|].
     intros venv venv' Hd vs Hrun. rewrite run_TSel in Hrun. inv_bind Hrun.
     destruct (Hd x0 Hx0) as [Hl [a' [Ht' [Hl' Hpa]]]].
-    rewrite (enum_filter_vals (fun k => zin k x) ks x0 [] Hl) in Hrun. inversion Hrun; subst vs. clear Hrun.
+    rewrite (enum_filter_vals0 (fun k => zin k x) ks x0 Hl) in Hrun. inversion Hrun; subst vs. clear Hrun.
     destruct (selv_combine (fun k => zin k x) ks x0 Hl) as [E1 E2].
     destruct (selv_combine (fun k => zin k x) ks' a' Hl') as [E1' E2'].
     split; [exact E2|]. exists (selv (fun k => zin k x) ks' a'). rewrite run_TSel, Ht'. cbn [bind].
-    split; [exact (enum_filter_vals (fun k => zin k x) ks' a' [] Hl')|]. split; [exact E2'|].
+    split; [exact (enum_filter_vals0 (fun k => zin k x) ks' a' Hl')|]. split; [exact E2'|].
     rewrite E1, E1'. apply Permutation_filter'. exact Hpa.
   Qed.
 
@@ -547,5 +606,143 @@ Section Abstract.
       split; [reflexivity|]. split; [reflexivity | apply Permutation_refl].
     - assert (Hz' : zindex b ks' = None) by (apply (zindex_perm b ks ks' Hp); exact Hz). rewrite Hz'.
       inversion H; subst; exact Hzero.
+  Qed.
+
+  (* the value lists bound to the parameters, related position by position *)
+  Definition EnvD (kenv kenv' : list (list Z)) (venv venv' : list (list R)) : Prop :=
+    forall i ks ks', nth_error kenv i = Some ks -> nth_error kenv' i = Some ks' ->
+      RRd venv venv' (RRec ks (TArg i)) (RRec ks' (TArg i)).
+
+  Lemma Forall2_nth {X Y} (P : X -> Y -> Prop) l l' i x :
+    Forall2 P l l' -> nth_error l i = Some x -> exists y, nth_error l' i = Some y /\ P x y.
+  Proof.
+    intros H. revert i. induction H as [|a b l l' Hab H IH]; intros [|i] Hn; cbn in *; try discriminate.
+    - inversion Hn; subst. eauto.
+    - apply IH. exact Hn.
+  Qed.
+  Lemma Forall_nth {X} (P : X -> Prop) l i x : Forall P l -> nth_error l i = Some x -> P x.
+  Proof. intros H Hn. eapply Forall_forall; [exact H | eapply nth_error_In; exact Hn]. Qed.
+
+  Lemma run_TCall venv k kin tb ts : run venv (TCall k kin tb ts) = (args <- mapM (run venv) ts ;; run args tb).
+  Proof.
+    cbn.
+    match goal with |- bind (?F ts) _ = _ =>
+      assert (E : F ts = mapM (run_tape O opd venv) ts)
+        by (induction ts as [|t0 ts IH]; [reflexivity | cbn; rewrite IH; reflexivity]) end.
+    rewrite E. reflexivity.
+  Qed.
+
+  Definition mk (kt : list Z * tape R) : rv := RRec (fst kt) (snd kt).
+  Lemma all_some_inv rs kts : all_some (map rkeys rs) = Some kts -> rs = map mk kts.
+  Proof.
+    revert kts. induction rs as [|r rs IH]; intros kts H; cbn in H.
+    - inversion H; reflexivity.
+    - destruct r as [c|ks t]; cbn in H; [discriminate|].
+      destruct (all_some (map rkeys rs)) as [l|]; [|discriminate]. inversion H; subst. cbn. f_equal. apply IH. reflexivity.
+  Qed.
+  Lemma all_some_mk kts : all_some (map rkeys (map mk kts)) = Some kts.
+  Proof. induction kts as [|[ks t] kts IH]; cbn; [reflexivity | rewrite IH; reflexivity]. Qed.
+  Lemma RRs_mk_inv kts rs' : Forall2 RRs (map mk kts) rs' -> exists kts', rs' = map mk kts'.
+  Proof.
+    revert rs'. induction kts as [|[ks t] kts IH]; intros rs' H; inversion H as [|? y ? l' Hh Ht]; subst.
+    - exists []. reflexivity.
+    - destruct (IH _ Ht) as [kts' E]. destruct y as [c|ks' t']; cbn in Hh; [contradiction|].
+      exists ((ks', t') :: kts'). cbn. f_equal. exact E.
+  Qed.
+
+  Lemma mapM_run_rel venv venv' kts kts' args :
+    Forall2 RRs (map mk kts) (map mk kts') -> Forall2 (RRd venv venv') (map mk kts) (map mk kts') ->
+    mapM (run venv) (map snd kts) = Ok args ->
+    exists args', mapM (run venv') (map snd kts') = Ok args' /\ EnvD (map fst kts) (map fst kts') args args'.
+  Proof.
+    revert kts' args. induction kts as [|[ks t] kts IH]; intros [|[ks' t'] kts'] args HS HD H;
+      inversion HS as [|? ? ? ? HS1 HS2]; inversion HD as [|? ? ? ? HD1 HD2]; subst.
+    - cbn in H. inversion H; subst. exists []. split; [reflexivity|]. intros [|i] ? ? Hn; discriminate.
+    - cbn [map mapM snd] in H. inv_bind H. inv_bind H. inversion H; subst args. clear H.
+      unfold mk in HD1. cbn [fst snd] in HD1, Hx. destruct (HD1 x Hx) as [Hl [a' [Ht' [Hl' Hpa]]]].
+      destruct (IH kts' x0 HS2 HD2 Hx0) as [args' [E HE]].
+      exists (a' :: args'). cbn [map mapM snd]. rewrite Ht'. cbn [bind]. rewrite E. cbn [bind]. split; [reflexivity|].
+      intros [|i] k1 k1' Hn Hn'; cbn [map fst nth_error] in Hn, Hn'.
+      + inversion Hn; inversion Hn'; subst. intros vs Hv. cbn in Hv. inversion Hv; subst vs.
+        split; [exact Hl|]. exists a'. cbn. auto.
+      + intros vs Hv. cbn in Hv. destruct (HE i k1 k1' Hn Hn' vs) as [Hlv [vs' [Hv' R']]]; [cbn; exact Hv|].
+        split; [exact Hlv|]. exists vs'. cbn. cbn in Hv'. auto.
+  Qed.
+
+  (* G2 *)
+  Theorem record_perm : forall fuel e kenv kenv' r,
+    Forall wfk kenv -> Forall2 (@Permutation Z) kenv kenv' ->
+    rec_ fuel kenv e = Ok r ->
+    exists r', rec_ fuel kenv' e = Ok r' /\ RRs r r' /\
+      forall venv venv', EnvD kenv kenv' venv venv' -> RRd venv venv' r r'.
+  Proof.
+    induction fuel as [|fu IH]; intros e kenv kenv' r Hk Hp H; [discriminate|].
+    assert (U1 : forall F e1, RR1 F ->
+              (x <- rec_ fu kenv e1 ;; F x) = Ok r ->
+              exists r', (x <- rec_ fu kenv' e1 ;; F x) = Ok r' /\ RRs r r' /\
+                forall venv venv', EnvD kenv kenv' venv venv' -> RRd venv venv' r r').
+    { intros F e1 HF H1. inv_bind H1.
+      destruct (IH e1 kenv kenv' x Hk Hp Hx) as [x' [E [S D]]]. rewrite E. cbn [bind].
+      destruct (HF x x' r S H1) as [r' [E2 [S2 D2]]]. exists r'. split; [exact E2|]. split; [exact S2|].
+      intros. apply D2, D. assumption. }
+    assert (U2 : forall F e1 e2, RR2 F ->
+              (x <- rec_ fu kenv e1 ;; y <- rec_ fu kenv e2 ;; F x y) = Ok r ->
+              exists r', (x <- rec_ fu kenv' e1 ;; y <- rec_ fu kenv' e2 ;; F x y) = Ok r' /\ RRs r r' /\
+                forall venv venv', EnvD kenv kenv' venv venv' -> RRd venv venv' r r').
+    { intros F e1 e2 HF H1. inv_bind H1. inv_bind H1.
+      destruct (IH e1 kenv kenv' x Hk Hp Hx) as [x' [E [S D]]]. rewrite E. cbn [bind].
+      destruct (IH e2 kenv kenv' x0 Hk Hp Hx0) as [y' [E' [S' D']]]. rewrite E'. cbn [bind].
+      destruct (HF x x' x0 y' r S S' H1) as [r' [E2 [S2 D2]]]. exists r'. split; [exact E2|]. split; [exact S2|].
+      intros. apply D2; [apply D | apply D']; assumption. }
+    destruct e; cbn [record] in H |- *.
+    - (* EArg *)
+      inv_bind H. inversion H; subst r. clear H.
+      destruct (nth_error kenv i) as [ks|] eqn:Hn; cbn in Hx; [|discriminate]. inversion Hx; subst x.
+      destruct (Forall2_nth _ _ _ i ks Hp Hn) as [ks' [Hn' Hpk]]. rewrite Hn'. cbn.
+      exists (RRec ks' (TArg i)). split; [reflexivity|]. split; [split; [exact (Forall_nth _ _ _ _ Hk Hn) | exact Hpk]|].
+      intros venv venv' HE. exact (HE i ks ks' Hn Hn').
+    - (* ENum *) inversion H; subst. exists (RNum c). cbn. auto.
+    - exact (U1 _ e (rr_meth1 m) H).
+    - exact (U2 _ e1 e2 (rr_meth2 m) H).
+    - exact (U1 _ e (rr_prefix u) H).
+    - exact (U2 _ e1 e2 (rr_infix o) H).
+    - exact (U1 _ e (rr_pow n) H).
+    - exact (U1 _ e (rr_grade gs) H).
+    - exact (U1 _ e (rr_getattr nm) H).
+    - exact (U1 _ e (rr_dual false k) H).
+    - exact (U1 _ e (rr_dual true k) H).
+    - exact (U1 _ e rr_norm H).
+    - exact (U1 _ e rr_normalized H).
+    - (* ECall *)
+      inv_bindn H as rs Hrs.
+      assert (HM : forall args rs, mapM (rec_ fu kenv) args = Ok rs ->
+                 exists rs', mapM (rec_ fu kenv') args = Ok rs' /\ Forall2 RRs rs rs' /\
+                   forall venv venv', EnvD kenv kenv' venv venv' -> Forall2 (RRd venv venv') rs rs').
+      { clear rs Hrs H. intros args0. induction args0 as [|a0 args0 IHa]; intros rs Hm; cbn [mapM] in Hm |- *.
+        - inversion Hm; subst. exists []. split; [reflexivity|]. split; [constructor | intros; constructor].
+        - inv_bindn Hm as y0 Hy0. inv_bindn Hm as ys Hys. inversion Hm; subst rs. clear Hm.
+          destruct (IH a0 kenv kenv' y0 Hk Hp Hy0) as [x' [E [S D]]]. rewrite E. cbn [bind].
+          destruct (IHa ys Hys) as [rs' [E' [S' D']]]. rewrite E'. cbn [bind].
+          exists (x' :: rs'). split; [reflexivity|]. split; [constructor; assumption|].
+          intros. constructor; [apply D | apply D']; assumption. }
+      destruct (HM args rs Hrs) as [rs' [E [S D]]]. rewrite E. cbn [bind].
+      destruct (all_some (map rkeys rs)) as [kts|] eqn:Has; [|discriminate].
+      apply all_some_inv in Has. subst rs.
+      destruct (RRs_mk_inv kts rs' S) as [kts' E']. subst rs'. rewrite all_some_mk.
+      inv_bindn H as body Hbody. rewrite Hbody. cbn [bind]. inv_bindn H as rb Hrb.
+      assert (Hkin : Forall wfk (map fst kts) /\ Forall2 (@Permutation Z) (map fst kts) (map fst kts')).
+      { clear -S. revert kts' S. induction kts as [|[ks t] kts IHk]; intros [|[ks' t'] kts'] S;
+          inversion S as [|? ? ? ? S1 S2]; subst; cbn.
+        - split; constructor.
+        - destruct (IHk kts' S2) as [F1 F2]. cbn in S1. destruct S1 as [W P]. split; constructor; assumption. }
+      destruct Hkin as [Hkin Hpin].
+      destruct (IH body (map fst kts) (map fst kts') rb Hkin Hpin Hrb) as [rb' [Eb [Sb Db]]]. rewrite Eb. cbn [bind].
+      destruct rb as [c|ko tb]; [discriminate|]. destruct rb' as [c'|ko' tb']; [contradiction|].
+      inversion H; subst r. clear H.
+      exists (RRec ko' (TCall k (map fst kts') tb' (map snd kts'))). split; [reflexivity|]. split; [exact Sb|].
+      intros venv venv' HE vs Hrun. rewrite run_TCall in Hrun. inv_bindn Hrun as cargs Hcargs.
+      destruct (mapM_run_rel venv venv' kts kts' cargs S (D venv venv' HE) Hcargs) as [args' [Ea HEa]].
+      destruct (Db cargs args' HEa vs Hrun) as [Hl [vs' [Hv' R']]].
+      split; [exact Hl|]. exists vs'. rewrite run_TCall, Ea. cbn [bind]. split; [exact Hv' | exact R'].
   Qed.
 End Abstract.
